@@ -62,6 +62,9 @@ type dworld struct {
 	cacheObjs  int64
 	syncs      int64
 	noMonitors bool
+	// noViewMonitor: the test makes the attachment cache stale on purpose
+	noViewMonitor bool
+	viewsJudged   int
 	caseID     string
 	// requests judged by the always-on monitors M-TARGET and M-STRATEGY
 	targetJudged, strategyJudged int
@@ -134,6 +137,11 @@ func newDWorld(cfg dworldCfg) *dworld {
 	w.hooks = sim.NewHookSite(s.Clock(), s.Tag)
 	w.hooks.HandleJSON("sync", DecorProgram)
 	w.hooks.HandleJSON("finalize", DecorProgram)
+	w.hooks.SetObserver(func(call *sim.HookCall) {
+		if !w.noMonitors && !w.noViewMonitor {
+			w.observeHookCall(call)
+		}
+	})
 	w.dc = cfg.decoratorController(w.hooks)
 	return w
 }
@@ -418,6 +426,7 @@ func (w *dworld) flushCounters(prop string) {
 	}
 	r.Counter(prop, "decorator_syncs", atomic.LoadInt64(&w.syncs))
 	r.Counter("C16", "target_writes_judged_by_mtarget", int64(w.targetJudged))
+	r.Counter("C03", "decorator_hook_requests_judged_by_mview", int64(w.viewsJudged))
 	r.Counter("C06", "decorator_attachment_requests_judged_by_mstrategy", int64(w.strategyJudged))
 	if !w.noMonitors {
 		// every scenario is also a C17 case: its syncs ran under the cache-fingerprint oracle
